@@ -161,11 +161,23 @@ func (x *Exec) run() {
 		}
 	}
 	// ghost variables: every g_ package variable of the verif files starts unconstrained
-	for _, name := range x.pkg.Types.Scope().Names() {
-		if strings.HasPrefix(name, "g_") {
-			if v, ok := x.pkg.Types.Scope().Lookup(name).(*types.Var); ok {
-				ti := x.classify(v.Type())
-				st.vars["ghost:"+name] = Scalar{c.fresh(name, ti.sort()), ti}
+	// (the ghosts of every loaded package: a callee in another package may name its own ghosts)
+	var gpkgs []string
+	for pn := range x.w.Pkgs {
+		gpkgs = append(gpkgs, pn)
+	}
+	sort.Strings(gpkgs)
+	for _, pn := range gpkgs {
+		pk := x.w.Pkgs[pn]
+		for _, name := range pk.Types.Scope().Names() {
+			if strings.HasPrefix(name, "g_") {
+				if _, dup := st.vars["ghost:"+name]; dup && pk != x.pkg {
+					continue
+				}
+				if v, ok := pk.Types.Scope().Lookup(name).(*types.Var); ok {
+					ti := x.classify(v.Type())
+					st.vars["ghost:"+name] = Scalar{c.fresh(name, ti.sort()), ti}
+				}
 			}
 		}
 	}
